@@ -370,10 +370,17 @@ pub fn scenario<C: MlsConfig>(rng: &mut Rng, mk: Mk<C>, out: &mut Out, exhaustiv
         .filter_map(|m| m.as_ref().and_then(|m| m.to_bytes().ok()))
         .collect();
     GENUINE.with(|g| *g.borrow_mut() = all_bytes.clone());
+    // the sender itself also receives the variants (an echo from the delivery service): it recognises its own messages by
+    // their hash and must not take a modified copy for its own
+    let sender_view = w.group(0).clone();
     for (kind, m) in &genuine {
         let gb = m.to_bytes().unwrap();
         for (label, v) in byte_variants(rng, &gb, flips, flips / 4, exhaustive) {
             try_variant(&recv, "B", m, &gb, &v, &format!("{kind}-{label}"), true, Some(&peer), out);
+        }
+        for (label, v) in byte_variants(rng, &gb, flips / 2, flips / 8, false) {
+            // the genuine echo of an own proposal is accepted (cached own proposal); an own application message never is
+            try_variant(&sender_view, "A(sender)", m, &gb, &v, &format!("echo-{kind}-{label}"), *kind == "proposal", None, out);
         }
         for other_b in all_bytes.iter().filter(|b| **b != gb).take(3) {
             for (label, v) in splices(rng, &gb, other_b, 6) {
@@ -430,6 +437,13 @@ pub fn scenario<C: MlsConfig>(rng: &mut Rng, mk: Mk<C>, out: &mut Out, exhaustiv
     let peer = w.group(2).clone();
     for (label, v) in byte_variants(rng, &cb, flips * 2, flips / 2, exhaustive) {
         try_variant(&recv, "B", &cm, &cb, &v, &format!("commit-{label}"), true, Some(&peer), out);
+    }
+    {
+        // echo to the committer, which holds the commit as pending: only the genuine bytes are its own commit
+        let committer = w.group(0).clone();
+        for (label, v) in byte_variants(rng, &cb, flips, flips / 4, false) {
+            try_variant(&committer, "A(committer)", &cm, &cb, &v, &format!("echo-commit-{label}"), true, None, out);
+        }
     }
     for other_b in all_bytes.iter().take(4) {
         for (label, v) in splices(rng, &cb, other_b, 6) {
